@@ -25,7 +25,10 @@ type c16Case struct {
 	Fault2 *mutation `json:"fault2,omitempty"` // thorough: a second, PRNG-chosen corruption
 	Basis  string    `json:"basis"`            // same | behind:k | fork:k | fork-known:k
 	Inputs string    `json:"inputs"`           // confirmed | unconfirmed
-	Phase  string    `json:"phase"`            // abort | corrupt | storm | clean-after-storm
+	Phase  string    `json:"phase"`            // abort | corrupt | storm | clean-after-storm | inject | clean-after-inject | contract-state
+	// Contract is the state of the contract to renew / refresh: "" (confirmed),
+	// unconfirmed (formation still pooled), unknown, renewed, expired
+	Contract string `json:"contract,omitempty"`
 }
 
 func (c c16Case) sig() string {
@@ -904,7 +907,7 @@ func (x *c16Lab) releaseAll() {
 }
 
 func runC16(r *mon.Run, replay string) {
-	r.Rule("fault table = RPC {form, renew, refresh-full, refresh-partial} x abort point {clean, stream cannot be opened, cut before/after the request, cut before/after the host inputs, injected RPCError, cut before/after the renter signatures, cut before/after / truncated final response, silent host, renter signatures swallowed} x basis relation {same tip, renter 1..3 blocks behind, renter on a stale fork of depth 1..3 unknown to / known by the host} x renter inputs {confirmed, one unconfirmed output with its parent}; plus every field of every message in both directions (reflection walk) x operator {flip low/high bit, zero, max, +1, -1, truncate, extend, duplicate, swap neighbours, nil pointer, other resolution type} at the same tip; plus storms of 20 consecutive aborts at one abort point followed by a clean attempt; thorough adds every abort point at every basis relation, the field table for the message shapes with an unconfirmed renter parent, and PRNG double corruptions. Two chain managers (host, renter) are kept in sync by the lab except where the basis relation says otherwise. Enumerated completely; a case is non-trivial when it is a clean/abort case or its corruption changed the wire bytes.")
+	r.Rule("fault table = RPC {form, renew, refresh-full, refresh-partial} x abort point {clean, stream cannot be opened, cut before/after the request, cut before/after the host inputs, injected RPCError, cut before/after the renter signatures, cut before/after / truncated final response, silent host, renter signatures swallowed} x basis relation {same tip, renter 1..3 blocks behind, renter on a stale fork of depth 1..3 unknown to / known by the host} x renter inputs {confirmed, one unconfirmed output with its parent}; plus every field of every message in both directions (reflection walk) x operator {flip low/high bit, zero, max, +1, -1, truncate, extend, duplicate, swap neighbours, nil pointer, other resolution type} at the same tip; plus renew/refresh of a contract that is still unconfirmed / unknown to the host / already renewed / expired; plus interface-failure injection: the k-th call of every error-returning method the client and the handlers invoke on the interfaces they were given (host chain manager V2TransactionSet/AddV2PoolTransactions/UpdateV2TransactionSet, contractor LockV2Contract/V2FileContractElement/AddV2Contract/RenewV2Contract, host wallet FundV2Transaction/BroadcastV2TransactionSet, the wallet's syncer, renter pool V2TransactionSet, renter wallet FundV2Transaction) fails, method x occurrence enumerated from a clean attempt of the same shape (confirmed/unconfirmed inputs x same tip/renter one block behind), each followed by a clean attempt, plus a signer that recommends a zero fee; plus storms of 20 consecutive aborts at one abort point followed by a clean attempt; thorough adds every abort point at every basis relation, the field table for the message shapes with an unconfirmed renter parent, and PRNG double corruptions. Two chain managers (host, renter) are kept in sync by the lab except where the basis relation says otherwise. Enumerated completely; a case is non-trivial when it is a clean/abort case or its corruption changed the wire bytes.")
 	r.Assume("core consensus and rhp/v4 cost functions are trusted; the in-repo EphemeralContractor/WalletStore are the host's and wallets' stores")
 	r.Assume("a failure seen by the renter after its signatures reached the host may legitimately coincide with a host-side commit (the final response cannot be made atomic); it is then checked as a host-side success")
 	r.Extra("exhaustive", true)
@@ -935,8 +938,11 @@ func runC16(r *mon.Run, replay string) {
 	}
 	var jobs []job
 	for _, rpc := range rpcs {
-		for _, part := range []string{"abort-same", "abort-basis-a", "abort-basis-b", "corrupt-R0", "corrupt-R1", "corrupt-H0", "corrupt-H1a", "corrupt-H1b", "corrupt-R0u", "corrupt-H1u", "corrupt-double", "storm"} {
+		for _, part := range []string{"abort-same", "abort-basis-a", "abort-basis-b", "corrupt-R0", "corrupt-R1", "corrupt-H0", "corrupt-H1a", "corrupt-H1b", "corrupt-R0u", "corrupt-H1u", "corrupt-double", "storm", "inject", "contract-state"} {
 			if only != nil && only.RPC != rpc {
+				continue
+			}
+			if part == "contract-state" && rpc == "form" {
 				continue
 			}
 			if (part == "corrupt-double" || strings.HasSuffix(part, "u")) && !r.Thorough() {
@@ -1012,6 +1018,47 @@ func runC16(r *mon.Run, replay string) {
 				x.attempt(c16Case{RPC: j.rpc, Fault: a, Fault2: &b, Basis: "same", Inputs: "confirmed", Phase: "corrupt"}, false)
 				r.Count("double_corruptions", 1)
 			}
+		case "contract-state":
+			// renew / refresh of a contract the host cannot (or must not) renew:
+			// every such attempt has to fail without a trace on either side
+			for _, state := range []string{"unconfirmed", "unknown", "renewed", "expired"} {
+				for _, inputs := range []string{"confirmed", "unconfirmed"} {
+					if x.attempt(c16Case{RPC: j.rpc, Fault: mutation{Op: "none"}, Basis: "same", Inputs: inputs, Phase: "contract-state", Contract: state}, false) {
+						r.Count("unrenewable_contract_renewed", 1)
+					}
+					// and the lab's ordinary contracts are still renewable afterwards
+					cse := c16Case{RPC: j.rpc, Fault: mutation{Op: "none"}, Basis: "same", Inputs: "confirmed", Phase: "clean-after-contract-state:" + state + ":" + inputs}
+					if !x.attempt(cse, false) && !x.dead && (x.only == nil || x.only.sig() == cse.sig()) {
+						r.Violation(fmt.Sprintf("clean-attempt-fails-after-failure:%s:contract-%s", j.rpc, state), "after a refused attempt a clean attempt no longer succeeds", cse, nil)
+					}
+				}
+			}
+		case "inject":
+			// every interface call the client and the three handlers make fails
+			// once: method x occurrence, learnt from a clean attempt of the same shape
+			for _, inputs := range []string{"confirmed", "unconfirmed"} {
+				for _, basis := range []string{"same", "behind:1"} {
+					saved := x.only
+					x.only = nil // the learning attempt always runs
+					ok := x.attempt(c16Case{RPC: j.rpc, Fault: mutation{Op: "none"}, Basis: basis, Inputs: inputs, Phase: "inject"}, false)
+					x.only = saved
+					counts := x.lastCounts
+					if !ok || x.dead {
+						continue
+					}
+					for _, m := range rhpmitm.SortedMethods(counts) {
+						for occ := 1; occ <= counts[m]; occ++ {
+							op := fmt.Sprintf("inject:%s#%d", m, occ)
+							x.attempt(c16Case{RPC: j.rpc, Fault: mutation{Op: op}, Basis: basis, Inputs: inputs, Phase: "inject"}, false)
+							cse := c16Case{RPC: j.rpc, Fault: mutation{Op: "none"}, Basis: "same", Inputs: "confirmed", Phase: "clean-after-" + op + ":" + basis + ":" + inputs}
+							if !x.attempt(cse, false) && !x.dead && (x.only == nil || x.only.sig() == cse.sig()) {
+								r.Violation(fmt.Sprintf("clean-attempt-fails-after-failure:%s:inject-%s", j.rpc, m), "after an interface failure a clean attempt no longer succeeds", cse, nil)
+							}
+						}
+					}
+				}
+				x.attempt(c16Case{RPC: j.rpc, Fault: mutation{Op: "signer:fee-zero"}, Basis: "same", Inputs: inputs, Phase: "inject"}, false)
+			}
 		case "storm":
 			for _, p := range c16AbortPoints {
 				// only abort points at which the renter's signatures cannot
@@ -1035,5 +1082,10 @@ func runC16(r *mon.Run, replay string) {
 		r.Floor("basis_relation:behind", 50)
 		r.Floor("basis_relation:fork", 50)
 		r.Floor("basis_relation:fork-known", 50)
+		r.Floor("injected_interface_failures", 150)
+		r.Floor("contract_state:unconfirmed", 6)
+		r.Floor("contract_state:renewed", 6)
+		r.Floor("contract_state:expired", 6)
+		r.Floor("contract_state:unknown", 6)
 	}
 }
